@@ -516,12 +516,35 @@ class SStr(SSeq):
             lim = 127
         else:
             raise cur()._raise(Unsupported(f"encode({encoding}) of symbolic str"))
+        if enc in ("utf-8", "utf8"):
+            return self._encode_utf8(errors)
         for c in self.items:
             if not in_range(c, 0, lim):
-                if enc.startswith("utf"):
-                    raise cur()._raise(Unsupported("utf-8 encoding of symbolic non-ASCII chars"))
                 raise UnicodeEncodeError(enc, "￿", 0, 1, "ordinal not in range")
         return SBytes(self.items)
+
+    def _encode_utf8(self, errors):
+        """exact UTF-8 encoder over symbolic code points: one fork per character on its length class (1..4 bytes,
+        lone surrogate), the bytes are div/mod terms of the code point"""
+        out: List[Any] = []
+        for pos, c in enumerate(self.items):
+            if not _isinstance(c, SInt):
+                out.extend(chr(c).encode("utf-8", errors))
+                continue
+            t = c.e
+            if in_range(c, 0, 0x7F):
+                out.append(c)
+            elif in_range(c, 0x80, 0x7FF):
+                out.extend((SInt(0xC0 + t / 64), SInt(0x80 + t % 64)))
+            elif in_range(c, 0xD800, 0xDFFF):
+                if errors != "strict":
+                    raise cur()._raise(Unsupported(f"utf-8 encoding of a symbolic surrogate with errors={errors!r}"))
+                raise UnicodeEncodeError("utf-8", "\ud800", 0, 1, "surrogates not allowed")
+            elif in_range(c, 0x800, 0xFFFF):
+                out.extend((SInt(0xE0 + t / 4096), SInt(0x80 + (t / 64) % 64), SInt(0x80 + t % 64)))
+            else:
+                out.extend((SInt(0xF0 + t / 262144), SInt(0x80 + (t / 4096) % 64), SInt(0x80 + (t / 64) % 64), SInt(0x80 + t % 64)))
+        return SBytes(out)
 
     _TR_CACHE: dict = {}
 
